@@ -63,6 +63,7 @@ def run(ctx):
         ('G-exec-burst', 80, 1200, dict(burst=True)),
         ('G-exec-waves', 80, 1500, dict(waves=True)),
         ('G-exec-over-susp', 60, 1200, dict(over_susp=True)),
+        ('G-exec-oversell', 60, 1000, dict(p_bad=1.0, bad_kinds=['asg-ram+'], bad_early=True)),
     ], nontrivial=lambda run: any(x['err'] for e in run.trace if not e['err'] for x in e['results'])
         or any(e['cmd']['susp'] for e in run.trace))
     out['rule'] = ('G-exec command fuzzer (see C03) with fixed- and growing-memory operators sized around the allocations, '
